@@ -428,47 +428,89 @@ func checkC05(c *Check) {
 			}
 			return false
 		}
-		nWeak := 0
+		// temporaries that are copied into the level variable (`tlsCfg, tlsLevel = _r1, _r2` after a helper that
+		// returns the new pair was read in place): lowering one of them lowers the level
+		levelVars := map[types.Object]bool{levelObj: true}
 		ast.Inspect(r.FI.Decl.Body, func(n ast.Node) bool {
-			bs, ok := n.(*ast.BlockStmt)
-			if !ok {
-				return true
+			if as, ok := n.(*ast.AssignStmt); ok && len(as.Lhs) == len(as.Rhs) {
+				for i, l := range as.Lhs {
+					if objOf(r.Info, l) == levelObj {
+						if id, isId := ast.Unparen(as.Rhs[i]).(*ast.Ident); isId {
+							if v, isVar := objOf(r.Info, id).(*types.Var); isVar && !v.IsField() {
+								levelVars[v] = true
+							}
+						}
+					}
+				}
 			}
-			for i, st := range bs.List {
-				as, ok := st.(*ast.AssignStmt)
-				if !ok || len(as.Lhs) != 1 || len(as.Rhs) != 1 {
+			return true
+		})
+		lowers := func(n ast.Node, names ...string) bool {
+			as, ok := n.(*ast.AssignStmt)
+			if !ok || len(as.Lhs) != len(as.Rhs) {
+				return false
+			}
+			for i, l := range as.Lhs {
+				if o := objOf(r.Info, l); o == nil || !levelVars[o] {
 					continue
 				}
+				if sel, ok := ast.Unparen(as.Rhs[i]).(*ast.SelectorExpr); ok {
+					for _, nm := range names {
+						if sel.Sel.Name == nm {
+							return true
+						}
+					}
+				}
+			}
+			return false
+		}
+		nWeak := 0
+		for _, pt := range r.F.Points() {
+			as, ok := pt.Node().(*ast.AssignStmt)
+			if !ok || len(as.Lhs) != len(as.Rhs) {
+				continue
+			}
+			for i := range as.Lhs {
 				kind := ""
-				if s, ok := ast.Unparen(as.Lhs[0]).(*ast.SelectorExpr); ok && s.Sel.Name == "InsecureSkipVerify" {
-					if tv, ok := r.Info.Types[as.Rhs[0]]; ok && tv.Value != nil && tv.Value.String() == "true" {
+				if sl, ok := ast.Unparen(as.Lhs[i]).(*ast.SelectorExpr); ok && sl.Sel.Name == "InsecureSkipVerify" {
+					if tv, ok := r.Info.Types[as.Rhs[i]]; ok && tv.Value != nil && tv.Value.String() == "true" {
 						kind = "skip-verify"
 					}
 				}
-				if typeIs(r.Info.TypeOf(as.Lhs[0]), "crypto/tls", "Config") && isNilIdent(r.Info, as.Rhs[0]) {
+				if typeIs(r.Info.TypeOf(as.Lhs[i]), "crypto/tls", "Config") && isNilIdent(r.Info, as.Rhs[i]) {
 					kind = "no-tls"
 				}
 				if kind == "" {
 					continue
 				}
 				nWeak++
-				// a lowering assignment must follow in the same block before the goto
-				ok2 := false
-				for _, later := range bs.List[i+1:] {
-					if b, isB := later.(*ast.BranchStmt); isB && b.Tok == token.GOTO {
-						break
+				want := []string{"TLSNone"}
+				if kind == "skip-verify" {
+					want = []string{"TLSEncrypted", "TLSNone"}
+				}
+				// from the weakening to the next connection attempt (or the end of the function) the level is lowered
+				ok2 := lowers(as, want...)
+				if !ok2 {
+					lowered := func(q Pt) bool { return lowers(q.Node(), want...) }
+					next := func(q Pt) bool {
+						if r.F.IsExitPt(q) {
+							return true
+						}
+						if n := q.Node(); n != nil {
+							for _, call := range callsIn(n) {
+								if isCall(r.Info, call, "~/internal/smtpconn.C.Connect") {
+									return true
+								}
+							}
+						}
+						return false
 					}
-					if kind == "skip-verify" && levelSet(later, "TLSEncrypted", "TLSNone") {
-						ok2 = true
-					}
-					if kind == "no-tls" && levelSet(later, "TLSNone") {
-						ok2 = true
-					}
+					_, found := r.F.Reach(Query{From: []Pt{pt}, Target: next, Avoid: lowered})
+					ok2 = !found
 				}
 				c.Hold("R6", "connect:"+kind, as.Pos(), ok2, "the TLS configuration is weakened ("+kind+") but the level reported for the connection is not lowered before retrying: an unauthenticated connection is reported as authenticated")
 			}
-			return true
-		})
+		}
 		if nWeak == 0 {
 			c.HoldConst("R6", "connect:no-weakening", r.FI.Decl.Pos(), true, "")
 		}
